@@ -18,6 +18,11 @@ LEVEL_NOTE = 'Trusts: Lean kernel; correspondence sampling over register classes
 TECHNIQUE = 'Lean 4 closed-form specification theorems (the oracle is the specification function) + differential correspondence on command traces'
 
 
+
+# vertical composition, control direction (Props/VerticalDown): update_field BY NAME -> bytes -> libccp model -> the register holds the value at the next invocation
+THEOREMS = THEOREMS + ['Portus.Vertical.update_by_name_reaches_register']
+AUDIT_IMPORTS = list(globals().get('AUDIT_IMPORTS', [])) + ['PortusModel.Props.VerticalDown']
+
 def project(c, r):
     return R.project(r, KEEP)
 
